@@ -7,8 +7,12 @@
 (*               under `apis`                                              *)
 (*   rules       for each of the ten mixin RPCs: 0 = no `http.rules` entry,*)
 (*               1 / 2 = one of two entries (verb, path, body) of RuleOf   *)
-(*   own         the API itself declares SetIamPolicy / GetIamPolicy /     *)
-(*               TestIamPermissions RPCs (all three), in service Carrier   *)
+(*   addl        every rule carries no additional binding ("none") or one  *)
+(*               additional binding of the same resource pattern whose uri *)
+(*               sorts before / after the primary one ("before" / "after") *)
+(*   own         the set of IAM-named RPCs (SetIamPolicy / GetIamPolicy /  *)
+(*               TestIamPermissions) the API declares itself, in service   *)
+(*               Carrier                                                   *)
 (*   layout      "single": the API has the one service Carrier;            *)
 (*               "own_first" / "own_last": it has a second service Other   *)
 (*               with ordinary RPCs only, declared after / before Carrier  *)
@@ -31,10 +35,16 @@
 (*   CallOwn(s, m, k)  a caller invokes an IAM RPC the API declares itself *)
 (*                                                                         *)
 (* Written from the property text; the invariants below restate it clause  *)
-(* by clause.  Named restrictions of the input space: own /\ legacy is     *)
-(* not generated (the two clauses contradict each other there); with       *)
+(* by clause.  Named restrictions of the input space: own # {} /\ legacy   *)
+(* is not generated (the two clauses contradict each other there); with    *)
 (* `legacy` the IAM methods have no http rule, so REST calls of them are   *)
 (* outside the property (OutOfScope).                                      *)
+(* Named reading (GroupYield, DESIGN 4/C17): "IAM mixins yield to          *)
+(* same-named RPCs defined by the API itself" is read for the IAM mixin as *)
+(* a whole - the IAM mixin RPCs are withdrawn iff the API declares an RPC  *)
+(* with the name of a CONFIGURED IAM mixin RPC (IAMPolicy listed and an    *)
+(* http rule for that name).  An own RPC whose name is not a configured    *)
+(* mixin RPC withdraws nothing.                                            *)
 (***************************************************************************)
 EXTENDS Naturals, Sequences, FiniteSets, TLC, Json, SequencesExt
 
@@ -101,8 +111,13 @@ RuleOf(m, i) ==
     [] m = "TestIamPermissions" -> IF i = 1 THEN R("post", "/v1/", ":testIamPermissions", "*") ELSE R("get", "/v2/", ":testIamPermissions", "")
     [] m = "ListLocations"   -> IF i = 1 THEN R("get", "/v1/", "/locations", "")      ELSE R("get", "/v2/", "/places", "")
     [] m = "GetLocation"     -> IF i = 1 THEN R("get", "/v1/", "", "")                ELSE R("post", "/v2/", ":get", "*")
-Uri(m, i) == RuleOf(m, i).pre \o "{" \o Field(m) \o "=" \o Pattern(m) \o "}" \o RuleOf(m, i).suf
-Expanded(m, i) == RuleOf(m, i).pre \o Value(m) \o RuleOf(m, i).suf
+BUri(m, b) == b.pre \o "{" \o Field(m) \o "=" \o Pattern(m) \o "}" \o b.suf
+BExpanded(m, b) == b.pre \o Value(m) \o b.suf
+\* additional bindings: same verb, pattern, suffix and body under another prefix; google.api.http bindings are tried in
+\* declaration order (primary pattern first, then additional_bindings in order).  Rank = lexicographic order of the prefixes.
+Addls == {"none", "before", "after"}
+AddlPre(x) == IF x = "before" THEN "/v0/" ELSE "/v9/"
+Rank(pre) == CASE pre = "/v0/" -> 0 [] pre = "/v1/" -> 1 [] pre = "/v2/" -> 2 [] OTHER -> 9
 
 \* the carrier API: package acme.mx.v1; service Carrier (declares the three IAM RPCs itself when `own`) and,
 \* in the two-service layouts, service Other
@@ -116,9 +131,9 @@ NoCall == [svc |-> "-", m |-> "-", kind |-> "-", via |-> "-", path |-> "-", reqt
            hkey |-> "-", hval |-> "-", verb |-> "-", body |-> "-", extra |-> "-"]
 NoneExposed == [sv \in Svcs |-> [c \in ClientKinds |-> {}]]
 
-VARIABLES apis, rules, own, layout, transports, legacy, tmpl, clients, phase, exposed, call
-vars == <<apis, rules, own, layout, transports, legacy, tmpl, clients, phase, exposed, call>>
-cfgvars == <<apis, rules, own, layout, transports, legacy, tmpl, clients>>
+VARIABLES apis, rules, addl, own, layout, transports, legacy, tmpl, clients, phase, exposed, call
+vars == <<apis, rules, addl, own, layout, transports, legacy, tmpl, clients, phase, exposed, call>>
+cfgvars == <<apis, rules, addl, own, layout, transports, legacy, tmpl, clients>>
 
 \* ---- input space ----------------------------------------------------------------------------------
 \* Pairwise-covering family of rule assignments: the 27 rows (a, b, c) of Z3^3 against ten pairwise
@@ -131,13 +146,22 @@ OARows(cs) == { Row(a, b, c) : a \in 0..2, b \in 0..2, c \in cs }
 Single(m, v) == [x \in RPCs |-> IF x = m THEN v ELSE 0]
 AllBut(m) == [x \in RPCs |-> IF x = m THEN 0 ELSE 1]
 RuleSets == CASE Scope = "small"  -> {AllRules(0), AllRules(1), AllRules(2)} \cup OARows({0})
-              [] Scope = "quick"  -> {AllRules(0), AllRules(1), AllRules(2)} \cup OARows({0, 1})
+              [] Scope = "quick"  -> {AllRules(0), AllRules(1), AllRules(2)} \cup OARows({0}) \cup {Row(1, 2, 1), Row(2, 1, 2)}
               [] Scope = "thorough" -> {AllRules(1), AllRules(2)} \cup OARows({0, 1, 2})
               [] OTHER -> {AllRules(1), AllRules(2)} \cup OARows({0, 1, 2})
                           \cup {Single(m, 1) : m \in RPCs} \cup {AllBut(m) : m \in RPCs} \cup [RPCs -> {0, 1}]
 PairwiseCovered(RS) == \A i, j \in 1..10 : i < j => \A a, b \in 0..2 :
                           \E r \in RS : r[RPCSeq[i]] = a /\ r[RPCSeq[j]] = b
 ASSUME Scope \in {"thorough", "full"} => PairwiseCovered(RuleSets)
+\* an eleventh column of the orthogonal array (vector <<1,1,2>>) decides the additional binding of the rows: every value of
+\* every RPC's rule meets every kind of additional binding; the all-on rule sets come without and with one
+AddlSeq == <<"none", "before", "after">>
+IsRow(r) == r = Row(r[RPCSeq[1]], r[RPCSeq[2]], r[RPCSeq[3]])
+AddlOfRow(r) == AddlSeq[((r[RPCSeq[1]] + r[RPCSeq[2]] + 2 * r[RPCSeq[3]]) % 3) + 1]
+AddlChoices(r) == IF r = AllRules(1) THEN {"none", "before"} ELSE IF r = AllRules(2) THEN {"none", "after"}
+                  ELSE IF IsRow(r) THEN {AddlOfRow(r)} ELSE {"none"}
+ASSUME Scope = "thorough" => \A i \in 1..10, a \in 0..2, x \in Addls :
+                               \E r \in OARows({0, 1, 2}) : r[RPCSeq[i]] = a /\ AddlOfRow(r) = x
 
 TransportSets == {{"grpc"}, {"rest"}, {"grpc", "rest"}}
 \* the Ads template set has its own copy of the mixin code: a reduced grid is enough
@@ -145,18 +169,27 @@ AdsOk == /\ apis \in {Apis, {OPS}, {IAM}, {LOC}, {OPS, LOC}}
          /\ rules \in {AllRules(1), AllRules(2), Row(1, 1, 0), Row(1, 2, 1), Row(2, 1, 2)}
          /\ transports \in {{"grpc"}, {"grpc", "rest"}}
          /\ layout \in {"single", "own_first"}
+         /\ own \in {{}, IamRPCs, {"TestIamPermissions"}}
+         /\ (own # {} \/ legacy) => addl = "none" \/ rules \notin {AllRules(1), AllRules(2)}
 \* replay grid of the thorough tier: every rule set with both transports, single transports with a third of them;
 \* the two-service layouts with both transports; own IAM RPCs with every rule set when the declaring service comes first
 Light == {AllRules(1), AllRules(2)} \cup OARows({0})
-ThoroughOk == /\ transports = {"grpc", "rest"} \/ (layout = "single" /\ rules \in Light)
-              /\ own => (IAM \in apis \/ apis = {})        \* own IAM RPCs matter where IAM mixins could be selected
-              /\ own => (layout = "own_first" \/ rules \in Light)
+ThoroughOk == /\ transports = {"grpc", "rest"} \/ (layout = "single" /\ rules \in Light /\ own = {})
+              /\ own # {} => (IAM \in apis \/ apis = {})   \* own IAM RPCs matter where IAM mixins could be selected
+              /\ own # {} => (layout = "own_first" \/ rules \in Light)
 QuickOk == layout = "single" \/ (transports = {"grpc", "rest"} /\ rules \in Light)
+\* a proper, non-empty subset of the three IAM names declared by the API: one service, both transports, IAM listed
+PartialOwn == own # {} /\ own # IamRPCs
+PartialOk == PartialOwn => /\ layout = "single" /\ transports = {"grpc", "rest"}
+                           /\ apis \in {{IAM}, Apis} /\ rules \in Light /\ (rules = AllRules(2) => addl = "none")
+                           /\ (apis = {IAM} => rules \in {AllRules(1), Row(1, 0, 0), Row(0, 1, 0)})
 \* the exhaustive rule space of the "full" scope is explored for the single-service layout
 FullOk == layout = "single" \/ rules \notin ([RPCs -> {0, 1}] \ ({AllRules(1)} \cup OARows({0, 1, 2})))
-Init == /\ apis \in SUBSET Apis /\ rules \in RuleSets /\ own \in BOOLEAN /\ legacy \in BOOLEAN
-        /\ ~(own /\ legacy)
-        /\ layout \in (IF own THEN {"single", "own_first", "own_last"} ELSE {"single"})
+Init == /\ apis \in SUBSET Apis /\ rules \in RuleSets /\ addl \in AddlChoices(rules)
+        /\ own \in SUBSET IamRPCs /\ legacy \in BOOLEAN
+        /\ ~(own # {} /\ legacy)
+        /\ layout \in (IF own # {} THEN {"single", "own_first", "own_last"} ELSE {"single"})
+        /\ PartialOk
         /\ transports \in TransportSets
         /\ (Scope = "thorough" => ThoroughOk)
         /\ (Scope = "quick" => QuickOk)
@@ -175,11 +208,18 @@ Services == Range(ServiceSeq)
 \* ---- SelectMixins ---------------------------------------------------------------------------------
 Listed(m) == ApiOf(m) \in apis
 HasRule(m) == rules[m] # 0
-OwnRPCs == IF own THEN IamRPCs ELSE {}                     \* IAM RPCs declared by the API itself (any service)
+OwnRPCs == own                                              \* IAM-named RPCs declared by the API itself (any service)
 OwnOn(sv) == IF sv = OwnService THEN OwnRPCs ELSE {}        \* ... by service sv
-\* a mixin RPC yields iff the API declares an RPC of the same name (whichever service declares it)
-Yields(m) == /\ m \in OwnRPCs /\ Mutant # "no_yield"
-             /\ ~(Mutant = "last_service_decides" /\ Last(ServiceSeq) # OwnService)
+\* the IAM mixin RPCs the YAML configures
+ConfiguredIam == { m \in IamRPCs : Listed(m) /\ HasRule(m) }
+\* GroupYield (named reading, see the header): the IAM mixin yields as a whole iff the API declares an RPC with the name of a
+\* configured IAM mixin RPC (whichever service declares it)
+GroupYield == OwnRPCs \cap ConfiguredIam # {}
+Yields(m) == /\ m \in IamRPCs
+             /\ CASE Mutant = "no_yield" -> FALSE
+                  [] Mutant = "yield_to_any_iam_name" -> OwnRPCs # {}
+                  [] Mutant = "last_service_decides" /\ Last(ServiceSeq) # OwnService -> FALSE
+                  [] OTHER -> GroupYield
 FromYaml == { m \in RPCs : /\ (Listed(m) \/ Mutant = "ignore_apis")
                            /\ (HasRule(m) \/ (Mutant = "expose_without_rule" /\ m = "GetOperation"))
                            /\ ~Yields(m) }
@@ -213,9 +253,17 @@ GrpcCall(sv, m, k) ==
             ELSE IF Mutant = "no_header" /\ m = "WaitOperation" THEN "" ELSE Field(m),
    hval |-> IF Mutant = "no_header" /\ m = "WaitOperation" THEN "" ELSE Value(m),
    verb |-> "-", body |-> "-", extra |-> "-"]
+\* the bindings of m's rule in declaration order; every one carries Pattern(m), so each matches Value(m) and the call uses
+\* the first one: the primary pattern
+Bindings(m) == LET r == RuleOf(m, rules[m]) IN
+               IF addl = "none" THEN <<r>> ELSE <<r, [r EXCEPT !.pre = AddlPre(addl)]>>
+Chosen(m) == LET bs == Bindings(m) IN
+             IF Mutant = "sorted_bindings"
+             THEN bs[CHOOSE i \in 1..Len(bs) : \A j \in 1..Len(bs) : Rank(bs[i].pre) <= Rank(bs[j].pre)]
+             ELSE bs[1]
 RestCall(sv, m) ==
-  LET r == RuleOf(m, rules[m]) IN
-  [svc |-> sv, m |-> m, kind |-> "rest", via |-> "mixin", path |-> Expanded(m, rules[m]), reqtype |-> "-", resptype |-> "-",
+  LET r == Chosen(m) IN
+  [svc |-> sv, m |-> m, kind |-> "rest", via |-> "mixin", path |-> BExpanded(m, r), reqtype |-> "-", resptype |-> "-",
    hkey |-> "-", hval |-> "-",
    verb |-> IF Mutant = "rest_wrong_verb" /\ r.verb = "put" THEN "post" ELSE r.verb,
    body |-> IF r.body = "*" /\ Mutant # "rest_drops_body" THEN "json" ELSE "none",
@@ -243,14 +291,21 @@ Sel == phase = "selected"
 \* "for each API named under `apis`, the clients expose exactly those mixin RPCs that have an HTTP rule"
 Inv_OnlyWithRule == Sel => \A sv \in Services, c \in clients : \A m \in exposed[sv][c] :
                        (legacy /\ m \in IamRPCs) \/ (ApiOf(m) \in apis /\ rules[m] \in {1, 2})
+\* own RPCs that carry the name of an IAM mixin RPC the YAML configures
+OwnConfigured == { m \in own : IAM \in apis /\ rules[m] \in {1, 2} }
 Inv_AllWithRule == Sel => \A sv \in Services, c \in clients : \A m \in RPCs :
-                       (ApiOf(m) \in apis /\ rules[m] \in {1, 2} /\ ~(own /\ ApiOf(m) = IAM)) => m \in exposed[sv][c]
+                       (ApiOf(m) \in apis /\ rules[m] \in {1, 2} /\ (ApiOf(m) = IAM => OwnConfigured = {})) => m \in exposed[sv][c]
 \* "none are exposed when the API is not listed"
 Inv_NotListedNone == Sel => \A sv \in Services, c \in clients : \A a \in Apis \ apis :
                        ~(legacy /\ a = IAM) => \A m \in exposed[sv][c] : ApiOf(m) # a
-\* "IAM mixins yield to same-named RPCs defined by the API itself": on no client of any service, wherever the
-\* declaring service stands among the services of the API
-Inv_IamYields == Sel /\ own => \A sv \in Services, c \in clients : exposed[sv][c] \cap IamRPCs = {}
+\* "IAM mixins yield to same-named RPCs defined by the API itself": on no client of any service is a mixin method exposed
+\* under the name of an RPC the API declares, wherever the declaring service stands among the services of the API ...
+Inv_IamYields == Sel => \A sv \in Services, c \in clients : exposed[sv][c] \cap own = {}
+\* ... and only to SAME-NAMED ones: own RPCs whose names are not configured IAM mixin RPCs withdraw nothing
+Inv_YieldOnlyToSameNamed == Sel /\ OwnConfigured = {} => \A sv \in Services, c \in clients :
+                              \A m \in IamRPCs : (IAM \in apis /\ rules[m] \in {1, 2}) => m \in exposed[sv][c]
+\* GroupYield (named reading): a same-named own RPC withdraws the IAM mixin as a whole
+Inv_GroupYield == Sel /\ OwnConfigured # {} => \A sv \in Services, c \in clients : exposed[sv][c] \cap IamRPCs = {}
 \* "the legacy add-iam-methods option exposes the three IAM RPCs on sync and asyncio clients alike"
 Inv_Legacy == Sel /\ legacy => \A sv \in Services, c \in clients : IamRPCs \subseteq exposed[sv][c]
 \* every client of every service exposes the same set
@@ -284,7 +339,7 @@ Inv_Rest == (call.via = "mixin" /\ call.kind = "rest") =>
               /\ (HasExtra(call.m) => call.extra = (IF r.body = "*" THEN "body" ELSE "query"))
 \* only exposed methods are callable as mixins, the API's own RPCs keep their own path
 Inv_CallsExposed == call.via = "mixin" => call.svc \in Services /\ call.m \in exposed[call.svc][ClientOf(call.kind)]
-Inv_OwnWins == call.via = "own" => own /\ call.svc = "Carrier" /\ call.m \in IamRPCs /\
+Inv_OwnWins == call.via = "own" => call.m \in own /\ call.svc = "Carrier" /\
                  (call.kind # "rest" => call.path = "/acme.mx.v1.Carrier/" \o call.m)
 Live == <>Sel
 
@@ -300,9 +355,12 @@ Case ==
     rulecode |-> rules,
     rules |-> [i \in 1..Len(RpcSeqOf({m \in RPCs : rules[m] # 0})) |->
                  LET m == RpcSeqOf({x \in RPCs : rules[x] # 0})[i] IN
-                 [selector |-> ApiOf(m) \o "." \o m, verb |-> RuleOf(m, rules[m]).verb, uri |-> Uri(m, rules[m]),
-                  body |-> RuleOf(m, rules[m]).body]],
-    own |-> own, layout |-> layout, services |-> ServiceSeq, legacy |-> legacy, tmpl |-> tmpl,
+                 [selector |-> ApiOf(m) \o "." \o m, verb |-> RuleOf(m, rules[m]).verb, uri |-> BUri(m, RuleOf(m, rules[m])),
+                  body |-> RuleOf(m, rules[m]).body,
+                  additional |-> [j \in 1..(Len(Bindings(m)) - 1) |->
+                                    [verb |-> Bindings(m)[j + 1].verb, uri |-> BUri(m, Bindings(m)[j + 1]),
+                                     body |-> Bindings(m)[j + 1].body]]]],
+    addl |-> addl, own |-> RpcSeqOf(own), layout |-> layout, services |-> ServiceSeq, legacy |-> legacy, tmpl |-> tmpl,
     transports |-> SelectSeq(<<"grpc", "rest">>, LAMBDA t : t \in transports),
     clients |-> SelectSeq(<<"sync", "asyncio">>, LAMBDA c : c \in clients),
     table |-> [i \in 1..10 |-> [rpc |-> RPCSeq[i], snake |-> Snake(RPCSeq[i]), reqtype |-> ReqType(RPCSeq[i]),
